@@ -127,7 +127,8 @@ def gen_config(rng, size="small", uniform=None):
         alt = [rng.choice([0.0, 0.0, 90000.0, rng.uniform(15000, 90000)]) for _ in range(nw)]
         gs = [[rng.choice([0.0, rng.uniform(-60, 60)]), rng.choice([0.0, rng.uniform(-60, 60)])] for _ in range(nw)]
     nl = rng.choice([1, 1, 2, 3]) if size == "small" else rng.randint(1, 4)
-    layers = [{"h": rng.choice([0.0, rng.uniform(0, 12000)]), "r0": rng.uniform(0.05, 1.0), "L0": rng.choice([rng.uniform(5, 100), rng.uniform(5, 100), rng.uniform(5, 100), rng.uniform(1, 5), rng.loguniform(1e3, 1e5)])} for _ in range(nl)]   # incl. outer scales below the pupil size and near-Kolmogorov ones (km and more)
+    # layer heights: ground, anywhere up to 12 km, and sometimes up to 25 km (above a low Rayleigh beacon: the cone factor is <= 0 there)
+    layers = [{"h": rng.choice([0.0, rng.uniform(0, 12000), rng.uniform(0, 12000), rng.uniform(12000, 25000)]), "r0": rng.uniform(0.05, 1.0), "L0": rng.choice([rng.uniform(5, 100), rng.uniform(5, 100), rng.uniform(5, 100), rng.uniform(1, 5), rng.loguniform(1e3, 1e5)])} for _ in range(nl)]   # incl. outer scales below the pupil size and near-Kolmogorov ones (km and more)
     maxn = max(max(len(MASKS[m]), len(MASKS[m][0])) for m in mk)
     D = maxn * max(d)
     wvl = [rng.choice([500e-9, rng.uniform(4e-7, 2e-6)]) for _ in range(nw)]
